@@ -440,6 +440,8 @@ class LegacyRun:
 
     def _sig(self, **k):
         d = {"engine": "chain", "iface": "legacy", "kind": self.kind, "method": self.sc["method"]}
+        if getattr(self, "alias_shift", None) is not None:
+            d["alias_shift"] = self.alias_shift
         d.update(k)
         return d
 
@@ -477,6 +479,26 @@ class LegacyRun:
         if chain.shape[1] != N:
             ctx.violate(PROP, "length", self._sig(), got=int(chain.shape[1]), requested=N, Nb=Nb)
             return
+        # a second run on the same tape, always observed through a callback (the callback cannot influence
+        # the chain): repeatability, and the states as they were at hand-over
+        tape_after = np.random.get_state()
+        np.random.set_state(tape0)
+        core.reset_volatile_globals()
+        cblog2, evals2 = [], [[]]
+        sc_cb = dict(sc, cb=True)
+        saved_sc, self.sc = self.sc, sc_cb
+        s2, _ = self._build(core.Ctx(0), cblog2, evals2)
+        self.sc = saved_sc
+        out2 = getattr(s2, method)(N, Nb)
+        c2 = np.array(out2.samples, float).reshape(chain.shape)
+        np.random.set_state(tape_after)
+        # does "every stored column was overwritten in place by the following transition" explain the record?
+        # (signature of the legacy-CWMH aliasing finding; keeps that known finding from masking anything else)
+        self.alias_shift = None
+        if len(cblog2) == N + Nb - 1:
+            by_idx = {c[0]: c[2] for c in cblog2}
+            self.alias_shift = bool(all(bit_equal(chain[:, t], by_idx.get(t + Nb + 1, np.nan)) for t in range(N - 1))
+                                    and bit_equal(chain[:, N - 1], by_idx.get(N + Nb - 1, np.nan)))
         if Nb == 0 and not bit_equal(chain[:, 0], x0):
             ctx.violate(PROP, "starts_with_initial_point", self._sig())
         # ---- 4 callback
@@ -504,12 +526,6 @@ class LegacyRun:
                             ctx.violate(PROP, "consecutive", self._sig(), index=t)
                             break
         # ---- repeatability + earlier result untouched by a later call
-        np.random.set_state(tape0)
-        core.reset_volatile_globals()
-        cblog2, evals2 = [], [[]]
-        s2, _ = self._build(core.Ctx(0), cblog2, evals2)
-        out2 = getattr(s2, method)(N, Nb)
-        c2 = np.array(out2.samples, float).reshape(chain.shape)
         if not np.array_equal(c2, chain, equal_nan=True):
             ctx.violate(PROP, "same_tape_same_chain", self._sig())
         s.x0 = chain[:, -1].copy()
@@ -710,6 +726,11 @@ class ChainEngine(EngineBase):
 
     def gen(self, r, tier):
         x = r.random()
+        if tier == "thorough" and x < 0.25:
+            c = gen_exp_case(r, tier)
+            c["ops"] = []
+            c["enumerate"] = r.randint(1, 10)
+            return c
         if x < 0.55:
             return gen_exp_case(r, tier)
         if x < 0.80:
@@ -724,7 +745,25 @@ class ChainEngine(EngineBase):
         try:
             iface = case["scenario"].get("iface", "exp")
             runner_cls = {"exp": ExpRun, "legacy": LegacyRun, "hgibbs": HGibbsRun, "lgibbs": LGibbsRun}[iface]
-            runner_cls(ctx, case).run()
+            if case.get("enumerate"):
+                # complete fault enumeration inside the scenario: every checkpoint position 0..T x both restart modes
+                T = int(case["enumerate"])
+                tape0 = np.random.get_state()
+                for c in range(T + 1):
+                    for mode in ("same_process", "new_process"):
+                        ops = ([{"op": "sample", "n": c}] if c else []) + [{"op": "checkpoint", "path": "ck_a"}]
+                        if T - c:
+                            ops.append({"op": "sample", "n": T - c})
+                        ops.append({"op": "crash_restart", "mode": mode})
+                        if T - c:
+                            ops.append({"op": "sample", "n": T - c})
+                        np.random.set_state(tape0)
+                        ctx.count("enumerated_crash_points")
+                        if c == T:
+                            ctx.hit("checkpoint_at_T")
+                        ExpRun(ctx, dict(case, ops=ops)).run()
+            else:
+                runner_cls(ctx, case).run()
         finally:
             sim.uninstall()
 
